@@ -587,6 +587,129 @@ def path_matches(path, pat):
     return path == pat or path.endswith('::' + pat)
 
 
+# --------------------------------------------------------------------------- renamed private functions
+# The rules name functions of /repo. A private function that is merely renamed (same parent module or impl, same body) is the same function:
+# it is recognised by the shape of its body, recorded in ledgers/fn_names.json when the rules were written, and the program is presented to the
+# rules under the recorded name. Anything else (a body that changed together with the name, two candidates) stays unmatched and the rules that
+# need the function fail closed with a missing anchor.
+NAME_CRATES = ('slicec', 'slicec_bin', 'slice_codec')
+
+
+def fn_tokens(f):
+    """shape of a function body: one token per statement and terminator; calls carry the callee's last name and arity"""
+    out = ['argc:%d' % f.argc, 'ret:%s' % f.locals[0]['ty'] if f.locals else 'ret:?']
+    for blk in f.blocks:
+        if blk.get('cleanup'):
+            continue
+        for st in blk['s']:
+            rv = st.get('rv')
+            if rv is None:
+                continue
+            k = rv['k']
+            if k == 'use':
+                continue          # plain moves and copies come and go with the way an expression is written (a block around a match arm)
+            if k in ('bin', 'un'):
+                k += ':' + rv['op']
+            elif k == 'agg':
+                k += ':' + (rv.get('adt', rv.get('ak', '')).rsplit('::', 1)[-1]) + ':' + str(rv.get('v', ''))
+            out.append(k)
+        t = blk['t']
+        if t['k'] == 'call':
+            d = (t['f'].get('def') or t['f'].get('res') or '?')
+            out.append('call:%s/%d' % (re.sub(r'::<.*$', '', d).rsplit('::', 1)[-1], len(t.get('a', []))))
+        elif t['k'] == 'switch':
+            out.append('switch:%s:%s' % (t.get('ty'), ','.join(str(v) for v, _ in t.get('ts', []))))
+        else:
+            out.append(t['k'])
+    return out
+
+
+def _parent_of(path):
+    p = re.sub(r'::<[^<>]*(<[^<>]*>[^<>]*)*>$', '', path)
+    return p.rsplit('::', 1)[0] if '::' in p else ''
+
+
+def name_ledger_entries(prog):
+    out = {}
+    for p, f in prog.fns.items():
+        if f.crate.tag in NAME_CRATES and '{closure' not in p and not f.generated and not p.startswith('<') and f.blocks:
+            kids = sorted((g.path[len(p):], fn_tokens(g)) for q, g in prog.fns.items() if q.startswith(p + '::{closure'))
+            out[p] = {'parent': _parent_of(p), 'tokens': fn_tokens(f), 'closures': [t for _, t in kids]}
+    return out
+
+
+def _masked(tokens, common):
+    return ['call:LOCAL/' + t.rsplit('/', 1)[1] if t.startswith('call:') and t[5:].rsplit('/', 1)[0] not in common else t for t in tokens]
+
+
+def recognise_renames(prog, ledger):
+    """{recorded path: current path} for functions that disappeared under their recorded name and reappear, body unchanged, under a new name in
+    the same module / impl. Names of functions that exist on one side only are masked on both sides (several functions renamed at once)."""
+    now = name_ledger_entries(prog)
+    gone = [p for p in ledger if p not in prog.fns]
+    new = [p for p in now if p not in ledger]
+    if not gone or not new:
+        return {}
+    last = lambda p: re.sub(r'::<.*$', '', p).rsplit('::', 1)[-1]
+    common = ({last(p) for p in ledger} & {last(p) for p in now})
+    local = {last(p) for p in ledger} | {last(p) for p in now}
+    keep = lambda name: name in common or name not in local        # std / other crates' names are kept as they are
+    mask = lambda toks: ['call:LOCAL/' + t.rsplit('/', 1)[1] if t.startswith('call:') and not keep(t[5:].rsplit('/', 1)[0]) else t for t in toks]
+    out, taken = {}, set()
+    for old in gone:
+        e = ledger[old]
+        sig = (mask(e['tokens']), [mask(c) for c in e.get('closures', [])])
+        cands = [n for n in new if now[n]['parent'] == e['parent'] and (mask(now[n]['tokens']), [mask(c) for c in now[n]['closures']]) == sig]
+        if len(cands) == 1 and cands[0] not in taken:
+            out[old] = cands[0]
+            taken.add(cands[0])
+    return out
+
+
+def apply_renames(prog, renames):
+    """present the functions under their recorded names: paths of the functions and of their closures, callee paths of every call, closure
+    aggregates, impl method tables"""
+    if not renames:
+        return
+    inv = sorted(((new, old) for old, new in renames.items()), key=lambda x: -len(x[0]))
+
+    def fix(sv):
+        if not isinstance(sv, str):
+            return sv
+        for new, old in inv:
+            if new in sv:
+                i = sv.find(new)
+                end = i + len(new)
+                if end == len(sv) or sv[end] in ':<>,) ':
+                    sv = sv[:i] + old + sv[end:]
+        return sv
+    for c in prog.crates.values():
+        for f in c.fns:
+            f.real_path = f.path
+            f.path = fix(f.path)
+            f.raw['path'] = f.path
+            f.root = fix(f.root)
+            for blk in f.blocks:
+                t = blk['t']
+                if t['k'] == 'call':
+                    for k in ('def', 'res'):
+                        if t['f'].get(k):
+                            t['f'][k] = fix(t['f'][k])
+                for st in blk['s']:
+                    rv = st.get('rv')
+                    if rv and rv.get('k') == 'agg' and rv.get('ak') == 'closure' and rv.get('def'):
+                        rv['def'] = fix(rv['def'])
+        for i in c.impls:
+            for m in i.get('methods', []):
+                if m.get('path'):
+                    m['path'] = fix(m['path'])
+    prog.fns = {}
+    for c in prog.crates.values():
+        for f in c.fns:
+            prog.fns[f.path] = f
+    prog.renamed = dict(renames)
+
+
 class Crate:
     def __init__(self, raw):
         self.name = raw['crate']
@@ -631,6 +754,12 @@ class Program:
                 self.consts[k['path']] = k
         self._cg = None
         self._closures = None
+        self.renamed = {}
+        led = os.path.join(os.path.dirname(os.path.abspath(__file__)), '..', '..', 'ledgers', 'fn_names.json')
+        if os.path.exists(led) and os.environ.get('VERIF_NO_RENAMES') != '1':
+            with open(led) as fh:
+                ledger = json.load(fh)['functions']
+            apply_renames(self, recognise_renames(self, ledger))
 
     # ---- lookup
     def fn(self, pat, crate=None):
